@@ -397,6 +397,39 @@ func checkTrace(ev []uint8, ids []int) (int, string, int) {
 	return -1, "", len(states)
 }
 
+// vmCases: per-buffer event sequences of the recorded traces with the verdict
+// of the Go automaton, re-evaluated inside coqc with vm_compute (cases.v).
+var vmCases []string
+
+func vmAdd(evs []uint8, accepted bool) {
+	if len(vmCases) >= 160 {
+		return
+	}
+	if len(evs) > 120 {
+		if !accepted {
+			return
+		}
+		evs = evs[:120] // a prefix of an accepted sequence is accepted
+	}
+	names := []string{"", "EGet", "ERef", "EUnref", "EPut"}
+	parts := make([]string, len(evs))
+	for i, e := range evs {
+		parts[i] = names[e]
+	}
+	vmCases = append(vmCases, "(["+strings.Join(parts, ";")+"], "+core.CoqBool(accepted)+")")
+}
+
+func vmWrite(c *core.Ctx) {
+	// two hand-made rejected sequences keep the comparison two-sided
+	vmCases = append(vmCases, "([EGet;ERef;EUnref;EPut], false)", "([EGet;EUnref;EPut;EUnref], false)")
+	c.Vm("From Coq Require Import List Bool Arith.\nFrom PQ Require Import Conc.Refcount.\nImport ListNotations.")
+	c.Vm("Definition cases : list (list event * bool) := [\n  " + strings.Join(vmCases, ";\n  ") + "].")
+	c.Vm("Definition accepted (es : list event) : bool := match check_buf BNew es with Some _ => true | None => false end.")
+	c.Vm("Definition mismatches := filter (fun p => negb (Bool.eqb (accepted (fst p)) (snd p))) cases.")
+	c.Vm("Definition M := Eval vm_compute in (length cases, mismatches).\nPrint M.")
+	c.Res.VmCases = len(vmCases)
+}
+
 func verdict(line string) string {
 	f := strings.Fields(line)
 	if len(f) >= 2 && (f[0] == "ok" || f[0] == "reject") {
@@ -533,6 +566,7 @@ func validateTrace(c *core.Ctx, in inst, rec *recorder) (rejected bool) {
 		}
 		m := c.Ask(tb.String())
 		traceStats.oracle++
+		vmAdd(evs, ri < 0)
 		if verdict(impl) != verdict(m) {
 			c.Mismatch("corr:C15.buf", core.Trunc(tb.String(), 1500), impl, m, replayOf(in, map[string]any{"buffer": b}))
 		}
@@ -2670,6 +2704,7 @@ func run(c *core.Ctx) {
 		c.Note("traces_validated_against_impl: %d traces, %d events, %d buffers, %d rejected (longest trace %d events)", traceStats.traces, traceStats.events, traceStats.buffers, traceStats.rejected, traceStats.longest)
 		if c.HasOracle() {
 			c.Note("traces_validated_against_model: %d oracle requests (whole traces and per-buffer projections)", traceStats.oracle)
+			vmWrite(c)
 		}
 	}
 	order := []string{"A-lazy", "A-eager", "B-independent", "C-column-writers", "D-row-groups", "E-async", "F-shared-schema", "G-retain-release", "mixed"}
